@@ -299,4 +299,31 @@ theorem cert_roundtrip' (c : CryptoOps) (hc : CryptoLaws c) (ct : Cert) (b rest 
   unfold expectedCert certPermDataLen certUuidLen
   rw [d8, d24, take_app _ _ 12 hPl, take_app _ _ 16 hUl, hbl, hPD, hUU]
 
+/-- what the certificate signature covers: the exported certificate is `signed part ‖ signature container`, the signed part is
+    exactly the first `signature offset` bytes, and the header names that offset (bytes 4..5) and the total length (bytes 1..2) -/
+theorem cert_signed_range' (c : CryptoOps) (ct : Cert) (b : Bytes) (h : encodeCert c ct = .ok b) :
+    ∃ sd g, encodeCertSigned c ct = .ok sd ∧ encodeSignature ct.signature = .ok g ∧ b = sd ++ g ∧ b.take sd.length = sd ∧
+      rd b 4 2 = sd.length ∧ rd b 1 2 = b.length ∧ rd b 0 1 = AhabConsts.certificateVersion ∧ rd b 3 1 = AhabConsts.certificateTag ∧
+      rd b 7 1 = ct.perms ∧ rd b 6 1 = 255 - ct.perms % 256 := by
+  obtain ⟨rb, db, hd, g, hk, hh, hg, hs, rfl, hl, hbl⟩ := encodeCert_spec c ct b h
+  obtain ⟨_, _, fA, _, hhd, _⟩ := certHeader_ok hh
+  refine ⟨hd ++ rb ++ db, g, hs, hg, rfl, take_app _ _ _ rfl, ?_⟩
+  rw [hl, hbl]
+  subst hhd
+  have hW : ∀ X : Bytes, packInts certIntsA [AhabConsts.certificateVersion, certSigOffset rb db + signatureLen ct.signature,
+      AhabConsts.certificateTag, certSigOffset rb db, 255 - ct.perms % 256, ct.perms] ++ extendTo 12 ct.permData ++
+      packInts certIntsB [ct.fuse, AhabConsts.reserved, AhabConsts.reserved] ++ extendTo 16 ct.uuid ++ rb ++ db ++ g =
+      packInts certIntsA [AhabConsts.certificateVersion, certSigOffset rb db + signatureLen ct.signature,
+      AhabConsts.certificateTag, certSigOffset rb db, 255 - ct.perms % 256, ct.perms] ++ (extendTo 12 ct.permData ++
+      (packInts certIntsB [ct.fuse, AhabConsts.reserved, AhabConsts.reserved] ++ (extendTo 16 ct.uuid ++ (rb ++ (db ++ g))))) := by
+    intro _; simp only [List.append_assoc]
+  rw [hW []]
+  have r := fun i hi => rd_packInts certIntsA _ (extendTo 12 ct.permData ++
+      (packInts certIntsB [ct.fuse, AhabConsts.reserved, AhabConsts.reserved] ++ (extendTo 16 ct.uuid ++ (rb ++ (db ++ g))))) i fA hi
+  have r0 := r 0 (by decide); have r1 := r 1 (by decide); have r2 := r 2 (by decide); have r3 := r 3 (by decide)
+  have r4 := r 4 (by decide); have r5 := r 5 (by decide)
+  simp only [certIntsA, List.take_zero, List.take_succ_cons, List.take_nil, intsLen, List.foldr_cons, List.foldr_nil, List.getD_cons_zero,
+    List.getD_cons_succ, Nat.add_zero, Nat.reduceAdd] at r0 r1 r2 r3 r4 r5
+  exact ⟨r3, r1, r0, r2, r5, r4⟩
+
 end SpsdkVerif.Ahab
